@@ -27,13 +27,13 @@ PROPERTY = Property(
              description='request a notification / indication of an arbitrary characteristic by bound value or by UUID (optionally repeated) through the real link layer callback, '
                          'then l2cap_output twice: PDU kind, value handle and value against a hand written table; sent only if the client configuration read through ATT has the matching bit',
              bounds='six characteristics, one connection (the link layer has one), output buffer 23 (quick) / 23, 10, 4, 3, 2 (thorough) bytes, empty queue before the request')
-     for n in (0, 1, 2, 3)],
+     for n in (0, 1, 2, 3, 4)],
     functions=['server::notify( const T& )', 'server::notify< UUID >()', 'server::indicate( const T& )', 'server::indicate< UUID >()', 'server::find_notification_data',
                'find_notification_data_in_list::find_notification_data / find_notification_data_by_index / cccd_indices', 'find_notification_by_uuid::data',
                'higher_outgoing_priority::characteristic_priority / numbers (compile time)', 'link_layer::queue_lcap_notification', 'server::l2cap_output',
                'notification_queue::queue_notification / queue_indication / dequeue_indication_or_confirmation', 'server::l2cap_input (Read Request on a CCCD, Handle Value Confirmation)',
                'bind_characteristic_value access (read)'],
-    bounds='four server declarations (no priorities, service + server priorities, service priorities, include_service + priorities) with six characteristics; one request (optionally repeated once) from an empty queue; '
+    bounds='five server declarations (no priorities, service + server priorities, service priorities, include_service + priorities, empty service in front) with six characteristics; one request (optionally repeated once) from an empty queue; '
            'all client configuration bytes, all values',
     assumptions=['a notification / indication is only requested for a characteristic declared with notify / indicate (static_assert in the API)',
                  'the notification queue is empty before the request (state after connection set up)',
